@@ -467,7 +467,38 @@ def correspond(ctx):
     cov["oracle"] = ("numpy SI assembly of the axisymmetric modified-potential equations (xaxi.si_system) with secant permeabilities from an "
                      "independent spline construction at the element's rms flux density, on the .ans written by the real fsolver; paired "
                      "straight-line-table / linear-material runs")
+    hang_probe(ctx)
     return dis
+
+
+def hang_probe(ctx):
+    """the recorded finding XNLAXI-2: the Newton loops have no iteration cap; the 17-node problem findings/XNLAXI-2-replay.fem (monotone
+    tables the material model accepts) keeps the real fsolver printing 'Newton Iteration' lines for ever.  Probed on every run with a
+    12 s budget (the problem's linear twin solves in milliseconds); listed in known_findings.json"""
+    import shutil, subprocess
+    src = os.path.join(vlib.VERIF, "findings", "XNLAXI-2-replay.fem")
+    if not os.path.exists(src):
+        return
+    f = os.path.join(ctx.work, "xnlaxi2_hang.fem")
+    shutil.copy(src, f)
+    rc, out, err = vlib.sh([ctx.snap.tool("fmesher"), f], timeout=60)
+    if rc != 0:
+        return
+    log = open(f[:-4] + ".out", "w")
+    pr = subprocess.Popen([ctx.snap.tool("fsolver"), f[:-4]], stdout=log, stderr=subprocess.STDOUT)
+    try:
+        rc = pr.wait(timeout=12)
+        state = "returned"
+    except subprocess.TimeoutExpired:
+        pr.kill(); pr.wait()
+        state = "running"
+    log.close()
+    n = sum(1 for l in open(f[:-4] + ".out", errors="replace") if l.startswith("Newton Iteration"))
+    ctx.res.cov["xnlaxi2_probe"] = dict(state=state, newton_passes_printed=n)
+    if state == "running":
+        ctx.fail("XNLAXI-2 the nonlinear iteration has no iteration cap: fsolver was still printing Newton passes (%d so far) after 12 s on a "
+                 "17-node axisymmetric problem with monotone B-H tables (findings/XNLAXI-2-replay.fem); Relax cycles between 2/11 and 1/11, "
+                 "no solution file is written" % n, signature="XNLAXI-2", replay_file="findings/XNLAXI-2-replay.fem")
 
 
 # ------------------------------------------------------ paired runs (reduction to linear) ----
